@@ -40,9 +40,11 @@ PROPS = {
             'Context::new_binding pushes exactly one RedeclarationError(name) iff the name is in the current scope and never replaces the first binding',
             'lookup_identifier: id and type of the symbol, or (Err, Type::Undefined) with exactly one UndefVarError',
             'classical declarations bind the name after the type and the initializer were analysed (the binding is the last symbol-table event of the statement)',
+            "scope structure of every construct (assertions inside stmt_to_asg_stmt): then / else / while / case / default bodies are analysed in a fresh scope of their own; the for iterable is analysed in the enclosing scope and the loop variable is bound first thing in the loop's own scope; gate / def parameters live in a fresh scope, the gate / def name is bound in the enclosing scope after the body; a def's return type is analysed outside the parameter scope",
+            'names that go out of scope are not visible afterwards: after any statement exactly the entry scopes are open, outer scopes are untouched and the current scope has only gained bindings (scoped frame on every analyser function)',
+            'only declarations bind: every expression / type / operand function leaves all scopes exactly as they were',
         ],
-        not_decided=['that every construct is wrapped in enter/exit (stmt_to_asg_stmt: closures)', 'gate/def parameter binding (bind_*)',
-                     ],
+        not_decided=['typed parameter binding order inside bind_typed_parameter_list (count only)', 'syntax_to_semantic (top-level loop, includes)'],
         explanation='Verus; see C19.',
     ),
     'C14': dict(
@@ -122,9 +124,11 @@ PROPS = {
         decided=[
             'every unwrap / panic! / unreachable! / todo! / index site inside the analyser functions under contract (closure-free part of syntax_to_semantics.rs, all of asg.rs) is one of: proved unreachable, assumed-parser (listed accessor / arm assumptions: hold on diagnostic-free trees), or a recorded known finding with a witness program',
             'SymbolTable::exit_scope / enter_scope assertions and Program::set_version / AnnotatedStmt::new panics are preconditions (call sites in unverified functions: not decided)',
+            'the statement analyser itself is under contract (stmt_to_asg_stmt, expr_stmt_to_asg_stmt, block_*, list helpers, bind_*; closures desugared by rule D3/D16, with_scope! expanded by its definition D17): every unwrap / unreachable! in it is proved, assumed-parser or a recorded finding; the `unreachable!` of the nested-include arm is PROVED unreachable (blocks are only analysed inside an opened scope)',
+            'scopes are balanced: every analyser function leaves exactly the scopes open that were open on entry (scope types equal), so enter_scope / exit_scope preconditions (never Global, never close the global scope) hold at every call site and only the global scope is open after a top-level statement',
+            'unsupported statement kinds (cal, defcal, extern, let, old-style declarations, measure statement, version line) push exactly one NotImplementedError and yield the null statement / nothing',
         ],
-        not_decided=['sites inside the functions that are not verified (stmt_to_asg_stmt, expr_stmt_to_asg_stmt, syntax_to_semantic, block / list helpers, bind_*): closures capturing &mut Context',
-                     '"only the global scope open afterwards" (with_scope! pairs are in stmt_to_asg_stmt)', 'memory / termination of the recursion over trees', 'source_file.rs include handling'],
+        not_decided=['syntax_to_semantic / analyze_source / parse_* (generic SourceTrait plumbing, include recursion): not verified', 'memory / termination of the recursion over trees', 'source_file.rs include handling', 'hand-written AST accessors are total except the three recorded ones (assumed; oq3_syntax is not verified here)'],
         explanation='Verus over an opaque, mechanically generated AST view (accessors may return anything unless listed as assumed-parser).',
     ),
     'C06': dict(
@@ -133,9 +137,11 @@ PROPS = {
             'binary_op_to_asg_type maps each syntactic operator to the graph operator of the same meaning (carve-out: **)',
             'for every ASG node: a constructor parameter named like a field initialises that field, an accessor named like a field returns it (83 contracts generated from struct definitions and signatures, never from bodies)',
             'Program::insert_stmt appends; gate-call modifiers are kept; an expression that is present is always translated',
+            'every statement kind maps to the graph construct of the same meaning (stmt_kind_ok: 29 kinds; include / annotation / version line yield no node); X::to_stmt wraps self in the Stmt variant whose payload type is X (generated from the enum definition)',
+            'expression statements: gate call / modified gate call / gphase / plain expression map to GateCall / GateCall or ModifiedGPhaseCall / GPhaseCall / ExprStmt, and gate modifiers keep their kind, count and order',
+            'argument lists, qubit operand lists, index lists and parameter lists keep their length (nothing dropped or duplicated); a block yields at most one graph statement per source statement, in iteration order',
         ],
-        not_decided=['source order / body attachment / annotation attachment / include expansion (syntax_to_semantic, stmt_to_asg_stmt, block_*: closures)',
-                     'AST accessor roles (e.g. RangeExpr::start_step_stop): methods over rowan nodes, opaque here'],
+        not_decided=['which translated statement ends up in which role (then / else / body): the translation is not a spec function, so roles are only pinned by constructor / accessor contracts and by the scope assertions', 'annotation attachment / include expansion (syntax_to_semantic: not verified)', 'AST accessor roles (e.g. RangeExpr::start_step_stop, IfStmt bodies): methods over rowan nodes, opaque here'],
         explanation='Verus.',
     ),
     'C08': dict(
@@ -159,8 +165,10 @@ PROPS = {
             'designator_to_asg: an integer literal yields exactly its value (carve-out: >= 2^32), any other literal is diagnosed, a const identifier yields its recorded value or InvalidDesignatorError',
             'TryFrom<&TExpr> for u32 accepts only a cast of a non-negative integer literal that fits u32',
             'Context::new_binding / SymbolTable::new_binding store exactly (name, type) (SYM unit)',
+            "gate definitions record Type::Gate(number of angle parameters, number of qubit parameters) under the gate's name; subroutine definitions record the number of typed parameters and the declared return type (Void when none written); qubit declarations record Qubit / QubitArray(length as written) — each as the last symbol-table event of the statement",
+            'bind_parameter_list declares every parameter, in order, with exactly the given type, and nothing else',
         ],
-        not_decided=['gate arity / def signature binding and return type (stmt_to_asg_stmt, bind_*)', 'the standard-gate table (flat_map/filter with a side-effecting closure), gates()'],
+        not_decided=['types of typed (def) parameters individually (count only)', 'the standard-gate table (flat_map/filter with a side-effecting closure), gates()'],
         explanation='Verus.',
     ),
     'C13': dict(
